@@ -9,7 +9,7 @@ from vf import common
 ID = "C18"
 LEVEL = "exploration"
 RULE = (
-    "case = one multi-master configuration: 2-3 masters generated as consistent deformations of one prototype (same shapes, "
+    "case = one multi-master configuration: one axis with 2-3 masters, or two axes (declared in either order, overlapping ranges) with 3-4 masters; master sources in m<k>/ or in m<k>/svg/ (same leaf directory name); masters generated as consistent deformations of one prototype (same shapes, "
     "commands, fills and gradient kinds; coordinates, sizes and gradient geometry differ), 1-3 glyphs, axis ranges and default "
     "position varied, metrics varied, half of the cases with reuse disabled; built by the real CLI (write_font per master -> "
     "write_variable_font).  The VF is evaluated at every master's location (gvar outlines through getGlyphSet(location), "
@@ -28,10 +28,33 @@ def plan(tier, seed):
     return [{"id": f"{seed}-{i}", "i": i} for i in range(N[tier])]
 
 
+AXIS_POOL = [("wght", "Weight"), ("wdth", "Width"), ("SKIN", "Skin"), ("MOOD", "Mood"), ("ROND", "Round"), ("AAAA", "First")]
+
+
 def gen(r):
-    nm = r.choice([2, 2, 3])
-    positions = sorted(r.sample([100, 200, 300, 400, 500, 700, 900], nm))
-    default = r.choice(positions)
+    if r.random() < 0.6:
+        nm = r.choice([2, 2, 3])
+        positions = sorted(r.sample([100, 200, 300, 400, 500, 700, 900], nm))
+        axes = [("wght", "Weight")]
+        locations = [{"wght": p} for p in positions]
+        default = {"wght": r.choice(positions)}
+    else:
+        # two axes, declared in either order (not necessarily alphabetical), with overlapping ranges; masters: the
+        # default corner, one master out along each axis, sometimes the far corner
+        axes = r.sample(AXIS_POOL, 2)
+        vals = {}
+        for tag, _ in axes:
+            a, b = sorted(r.sample([0, 50, 100, 200, 400, 700, 900], 2))
+            vals[tag] = (a, b) if r.random() < 0.6 else (b, a)  # (default, other)
+        t0, t1 = axes[0][0], axes[1][0]
+        default = {t0: vals[t0][0], t1: vals[t1][0]}
+        locations = [dict(default), {t0: vals[t0][1], t1: vals[t1][0]}, {t0: vals[t0][0], t1: vals[t1][1]}]
+        if r.random() < 0.3:
+            locations.append({t0: vals[t0][1], t1: vals[t1][1]})
+        r.shuffle(locations)
+        nm = len(locations)
+        positions = [tuple(l[t] for t, _ in axes) for l in locations]
+    same_leaf_dirs = r.random() < 0.5
     vb = r.choice([100, 128, 1000])
     upem = r.choice([1000, 1024, 2048])
     asc = int(upem * r.choice([0.8, 0.9, 0.95]))
@@ -64,7 +87,7 @@ def gen(r):
                     per_master.append({"x": j(base["x"]), "y": j(base["y"]), "w": abs(j(base["w"])) + 0.05, "h": abs(j(base["h"])) + 0.05, "pts": [(j(x), j(y)) for x, y in base["pts"]], "g": [j(v) for v in base["g"][:4]] + [abs(j(base["g"][4])) + 0.05]})
             shapes.append({"kind": kind, "fill": fill, "col": col, "col2": col2, "op": op, "params": per_master})
         glyphs.append(shapes)
-    return {"positions": positions, "default": default, "vb": vb, "upem": upem, "asc": asc, "desc": desc, "reuse": reuse, "glyphs": glyphs}
+    return {"positions": positions, "axes": axes, "locations": locations, "same_leaf_dirs": same_leaf_dirs, "default": default, "vb": vb, "upem": upem, "asc": asc, "desc": desc, "reuse": reuse, "glyphs": glyphs}
 
 
 def svg_for(spec, g, m):
@@ -104,7 +127,9 @@ def run_case(case):
     inproc.init()
     r = common.rng(ID, case["seed"], case["i"])
     spec = gen(r)
-    res = {"counters": {}, "maxes": {}, "violations": [], "tags": ["masters=%d" % len(spec["positions"]), "reuse" if spec["reuse"] else "noreuse"]}
+    res = {"counters": {}, "maxes": {}, "violations": [], "tags": ["masters=%d" % len(spec["positions"]), "axes=%d" % len(spec["axes"]), "reuse" if spec["reuse"] else "noreuse", "same-leaf-dirs" if spec["same_leaf_dirs"] else "distinct-dirs"]}
+    if len(spec["axes"]) == 2 and [t for t, _ in spec["axes"]] != sorted(t for t, _ in spec["axes"]):
+        res["tags"].append("axes-declared-out-of-tag-order")
     c = res["counters"]
     root = common.mkscratch("c18-")
     try:
@@ -112,15 +137,16 @@ def run_case(case):
         cfg = {
             "output_file": "VF.ttf", "color_format": "glyf_colr_1", "upem": spec["upem"], "ascender": spec["asc"], "descender": spec["desc"], "width": spec["upem"],
             "reuse_tolerance": 0.1 if spec["reuse"] else -1, "clip_to_viewbox": False, "keep_glyph_names": True,
-            "axis": {"wght": {"name": "Weight", "default": spec["default"]}},
+            "axis": {tag: {"name": nm_, "default": spec["default"][tag]} for tag, nm_ in spec["axes"]},
             "master": {},
         }
-        for m, pos in enumerate(spec["positions"]):
-            d = root / f"m{m}"
-            d.mkdir()
+        for m, loc in enumerate(spec["locations"]):
+            sub = f"m{m}/svg" if spec["same_leaf_dirs"] else f"m{m}"
+            d = root / sub
+            d.mkdir(parents=True)
             for g, n in enumerate(names):
                 (d / n).write_text(svg_for(spec, g, m))
-            cfg["master"][f"m{m}"] = {"style_name": f"W{pos}", "position": {"wght": pos}, "srcs": [f"m{m}/*.svg"]}
+            cfg["master"][f"m{m}"] = {"style_name": "M%d" % m, "position": dict(loc), "srcs": [f"{sub}/*.svg"]}
         (root / "vf.toml").write_text(toml.dumps(cfg))
         rcode, out = cli.nanoemoji(["--build_dir", str(root / "build"), "vf.toml"], root, cli.env_for(events=root / "ev.jsonl"), timeout=600)
         c["vf_builds"] = 1
@@ -133,21 +159,26 @@ def run_case(case):
         if "fvar" not in vf:
             res["violations"].append(dict(ctx, what="output has no fvar table"))
             return res
-        ax = vf["fvar"].axes[0]
-        axes = {ax.axisTag: (ax.minValue, ax.defaultValue, ax.maxValue)}
-        if (ax.minValue, ax.defaultValue, ax.maxValue) != (min(spec["positions"]), spec["default"], max(spec["positions"])):
-            res["violations"].append(dict(ctx, what=f"fvar axis is {(ax.minValue, ax.defaultValue, ax.maxValue)}, configured {(min(spec['positions']), spec['default'], max(spec['positions']))}"))
+        axes = {ax.axisTag: (ax.minValue, ax.defaultValue, ax.maxValue) for ax in vf["fvar"].axes}
+        for tag, _ in spec["axes"]:
+            vs = [l[tag] for l in spec["locations"]]
+            want = (min(vs), spec["default"][tag], max(vs))
+            if axes.get(tag) != want:
+                res["violations"].append(dict(ctx, what=f"fvar axis {tag} is {axes.get(tag)}, configured {want}"))
+        if set(axes) != {t for t, _ in spec["axes"]}:
+            res["violations"].append(dict(ctx, what=f"fvar axes {sorted(axes)} differ from the configured {sorted(t for t, _ in spec['axes'])}"))
+            return res
         colr = vf["COLR"]
         c["var_store"] = 1 if getattr(colr.table, "VarStore", None) is not None else 0
         statics = []
         scfg = {k: v for k, v in cfg.items() if k not in ("axis", "master", "output_file")}
-        for m, pos in enumerate(spec["positions"]):
+        for m, loc in enumerate(spec["locations"]):
             srcs = [{"svg": svg_for(spec, g, m), "codepoints": [0x1F600 + g]} for g in range(len(names))]
             statics.append(inproc.build(srcs, scfg))
         tol = compare.Tol(spec["upem"], output="colr", extra=1.5)
 
         def at(pos):
-            norm = normalizeLocation({"wght": pos}, axes)
+            norm = normalizeLocation(dict(pos), axes)
             ev = colreval.Evaluator.__new__(colreval.Evaluator)
             ev.font = vf
             ev.colr = colr
@@ -160,7 +191,7 @@ def run_case(case):
             ev.layers = t.LayerList.Paint if t.LayerList else []
             return ev, norm
 
-        for m, pos in enumerate(spec["positions"]):
+        for m, pos in enumerate(spec["locations"]):
             ev, norm = at(pos)
             st = statics[m]
             evs = colreval.Evaluator(st.font)
@@ -196,9 +227,14 @@ def run_case(case):
                 if pos == spec["default"]:
                     c["default_location_checked"] = 1
         # interior locations: the clip box in force contains the geometry there
-        for a, b_ in zip(spec["positions"], spec["positions"][1:]):
+        if len(spec["axes"]) == 1:
+            ordered = sorted(spec["locations"], key=lambda l: l["wght"])
+            segments = list(zip(ordered, ordered[1:]))
+        else:
+            segments = [(spec["default"], l) for l in spec["locations"] if l != spec["default"]]
+        for a, b_ in segments:
             for t_ in (0.25, 0.5, 0.75):
-                pos = a + (b_ - a) * t_
+                pos = {k: a[k] + (b_[k] - a[k]) * t_ for k in a}
                 ev, norm = at(pos)
                 for g in range(len(names)):
                     nv = rc.reach(vf, (0x1F600 + g,))
@@ -208,7 +244,7 @@ def run_case(case):
                     layers = [l for l in ev.display_list(nv[0]) if l.contours]
                     if box is None:
                         if layers:
-                            res["violations"].append(dict(ctx, what=f"no clip box in force at wght={pos}"))
+                            res["violations"].append(dict(ctx, what=f"no clip box in force at {pos}"))
                         continue
                     c["interior_boxes_checked"] = c.get("interior_boxes_checked", 0) + 1
                     for l in layers:
@@ -217,7 +253,7 @@ def run_case(case):
                         outby = max(box[0] - bb[0], box[1] - bb[1], bb[2] - box[2], bb[3] - box[3])
                         res["maxes"]["max_interior_protrusion"] = max(res["maxes"].get("max_interior_protrusion", -1e9), outby)
                         if outby > e:
-                            res["violations"].append(dict(ctx, what=f"at wght={pos} the clip box in force {tuple(round(v, 1) for v in box)} cuts interpolated geometry {tuple(round(v, 1) for v in bb)} by {outby:.2f}"))
+                            res["violations"].append(dict(ctx, what=f"at {pos} the clip box in force {tuple(round(v, 1) for v in box)} cuts interpolated geometry {tuple(round(v, 1) for v in bb)} by {outby:.2f}"))
         # how variable is it
         nvar = 0
         for paint in ev.base.values():
@@ -252,4 +288,7 @@ def finish(agg):
     for k in ("glyph_locations_compared", "interior_boxes_checked", "default_location_checked", "variable_clip_boxes"):
         if c.get(k, 0) == 0:
             inc.append(f"deciding monitor/branch never reached: {k}")
+    for k in ("axes=2", "axes-declared-out-of-tag-order", "same-leaf-dirs", "masters=3"):
+        if agg["tags"].get(k, 0) == 0:
+            inc.append(f"configuration class never built: {k}")
     return {"inconclusive": inc}
